@@ -9,6 +9,7 @@
    7 rolling  [7; n; w] -> 0 | 1 :: n_out :: ordered taps of every output (n_out x w)
    4 lp       [4; m; e; x..] (pad = m * 2^-e) -> lpad :: enc_zlist (padded) ++ enc_zlist (cropped)
    5 savgol   [5; window; polynom; n; x..; y..] over Q -> 0 :: code | 1 :: n :: (floor v; floor (frac v * 2^40)) x n
+   8 stack    [8; ntr; ns; word..; data..] integer data, default fcn_agg=np.nanmean: truncated means
    6 traj     [6; nc; x..; y..] -> nrows :: ncols :: enc_zlist entries ++ enc_zlist trcount *)
 From Coq Require Import ZArith List Bool QArith Qreduction.
 From IBL.lib Require Import PyInt RunLib.
@@ -54,6 +55,17 @@ Definition run_stack (l : list Z) : list Z :=
       let word := firstn (Z.to_nat ntr) r in
       let data := chunks_of (Z.to_nat ntr) (Z.to_nat ns) (skipn (Z.to_nat ntr) r) in
       let '(st, fold) := stack (wsum_from 1 (Z.to_nat ns)) data word in
+      Z.of_nat (length st) :: concat st ++ fold
+  | _ => [-999]
+  end.
+
+(* stack with integer data and the default nanmean: truncated means *)
+Definition run_stack_int (l : list Z) : list Z :=
+  match l with
+  | ntr :: ns :: r =>
+      let word := firstn (Z.to_nat ntr) r in
+      let data := chunks_of (Z.to_nat ntr) (Z.to_nat ns) (skipn (Z.to_nat ntr) r) in
+      let '(st, fold) := stack_int_mean (Z.to_nat ns) data word in
       Z.of_nat (length st) :: concat st ++ fold
   | _ => [-999]
   end.
@@ -154,6 +166,7 @@ Definition run (inp : list Z) : list Z :=
   | 4 :: r => run_lp r
   | 5 :: r => run_savgol r
   | 6 :: r => run_traj r
+  | 8 :: r => run_stack_int r
   | _ => [-999]
   end.
 
